@@ -214,10 +214,10 @@ func TestMain(m *testing.M) {
 
 func TestC03(t *testing.T) {
 	h := vlib.New(t, "C03", "exploration",
-		"projects with two or three simultaneous faults (injected into generated documents), templates with >= 2 entries in every internally hashed collection (recursive macros, unused Path properties, undefined types and enums, duplicated path parameters, many declarations of every kind, regex examples), generated valid documents, mutated fixtures, include projects; each run R times in one process (R = 8 quick, 24 thorough) with a fresh JApi, a sample (all three line-end conventions under one file name) also in two fresh processes, one of them in reverse order, and while 8 goroutines process other projects; the same caller-owned file value processed twice with the source bytes and the byte slices returned by ToJson / ToJsonIndent held and compared after later projects; oracle: identical verdict, message, Error() text, index, line, quote, file, and byte-identical ToJson / ToJsonIndent; non-trivial = rejected with >= 2 faults or accepted with >= 2 entries in a collection; distinct by project",
+		"projects with two or three simultaneous faults (injected into generated documents), templates with >= 2 entries in every internally hashed collection (recursive macros, unused Path properties, undefined types and enums, duplicated path parameters, many declarations of every kind, regex examples), generated valid documents, mutated fixtures, include projects; each run R times in one process (R = 8 quick, 24 thorough) with a fresh JApi, and twice on one JApi object (ValidateJAPI + ToJson called again), a sample (all three line-end conventions under one file name) also in two fresh processes, one of them in reverse order, and while 8 goroutines process other projects; the same caller-owned file value processed twice with the source bytes and the byte slices returned by ToJson / ToJsonIndent held and compared after later projects; oracle: identical verdict, message, Error() text, index, line, quote, file, and byte-identical ToJson / ToJsonIndent; non-trivial = rejected with >= 2 faults or accepted with >= 2 entries in a collection; distinct by project",
 		"a two-way order dependence escapes R runs with probability 2^-(R-1)", "regex examples are compared only with the fixed-seed option (without it they are random by design)")
 	defer vlib.CleanupScratch()
-	h.Require("accepted", "rejected", "fresh-process-arm", "busy-process-arm", "reused-option-values", "caller-owned-buffers", "escape-in-quoted-parameter", "held-output")
+	h.Require("accepted", "rejected", "fresh-process-arm", "busy-process-arm", "reused-option-values", "caller-owned-buffers", "escape-in-quoted-parameter", "held-output", "same-object-twice")
 	c03Repeats = h.Pick(8, 24)
 	multi := func(p vlib.Project, info *vlib.Info) *vlib.Failure {
 		f := c03Check(p, info)
@@ -272,6 +272,32 @@ func TestC03(t *testing.T) {
 		}
 		return nil
 	})
+
+	// the same JApi object validated and serialised twice
+	sameObject := func(src string, info *vlib.Info) *vlib.Failure {
+		info.NonTrivial = true
+		info.Class("same-object-twice")
+		r1, r2 := vlib.RunSameObjectTwice(src)
+		if r1.Panic != "" {
+			return nil // C01
+		}
+		if k1, k2 := resultKey(r1), resultKey(r2); k1 != k2 {
+			return vlib.Failf("nondeterministic: second ValidateJAPI on the same object", "ValidateJAPI / ToJson called twice on one JApi give different results\n--- first:\n%s\n--- second:\n%s\n--- source:\n%s", trunc(k1, 400), trunc(k2, 400), trunc(src, 1000))
+		}
+		return nil
+	}
+	vlib.Enum(h, "same-object-regression", false, func(yield func(string) bool) {
+		if h.Mine(0) {
+			yield("JSIGHT 0.3\nGET /a\n  200 any\n")
+		}
+	}, sameObject)
+	vlib.Rapid(h, "same-object-validated-twice", h.N(1500, 60000), func(t *rapid.T) string {
+		if rapid.Bool().Draw(t, "faulty") {
+			return genMultiFault(t).Files["root.jst"]
+		}
+		doc := vlib.GenDoc(t, vlib.GenOpts{Macros: rapid.Bool().Draw(t, "macros"), Inheritance: rapid.Bool().Draw(t, "inh")})
+		return vlib.Render(doc, genStyle(t, false)).Text
+	}, sameObject)
 
 	// caller-owned inputs and outputs: the same file value processed twice, and
 	// results held while other projects are processed
